@@ -22,8 +22,10 @@ type Emitter struct {
 	Subst map[*Term]*Term
 	// NoAtomRange suppresses range assertions on atoms (pure identities).
 	NoAtomRange bool
-	// Refined: use the refined intervals (see (*Ctx).Refine); only valid in scripts that also
-	// assert the range facts of the constraint set.
+	// Refined: decide wraps with the refined intervals (see (*Ctx).Refine). F = the range facts
+	// asserted on atoms, E = any other constraint, E' = E printed with refined wraps: F => (E <=> E'),
+	// so F /\ E <=> F /\ E' -- valid in either polarity as long as the facts are conjuncts of the
+	// same conjunction (they are: the facts and the terms over an atom are in one cone).
 	Refined bool
 	Prefix  string
 	AtomsSeen   []*Term
@@ -146,10 +148,9 @@ func (em *Emitter) define(t *Term, kids []*Term) {
 		em.names[t] = t.Name
 		fmt.Fprintf(&em.sb, "(declare-const %s Int)\n", t.Name)
 		if !em.NoAtomRange {
+			// atoms are always declared with their raw range: the refinement only decides where a
+			// `mod r` is needed, and is justified by facts that the same script asserts
 			hi := t.Hi
-			if em.Refined && t.RHi != nil {
-				hi = t.RHi
-			}
 			fmt.Fprintf(&em.sb, "(assert (and (<= %s %s) (<= %s %s)))\n", lit(t.Lo), t.Name, t.Name, lit(hi))
 		}
 		em.AtomsSeen = append(em.AtomsSeen, t)
